@@ -7,10 +7,10 @@ from mc.core import Result, SubCheck, jhash
 
 PROPERTY = "C19"
 ASSUMPTIONS = [
-    "Stream: 4 initial streams (hot, cold, latent, an unloaded utility with zero duty) x all sequences of <=3 (quick) / 4 (thorough) assignments from a 15-event menu "
+    "Stream: 4 initial streams (hot, cold, latent, an unloaded utility with zero duty) x all sequences of <=4 (quick) / 6 (thorough) assignments from a 16-event menu "
     "(t_supply/t_target in {50,100,150}, heat_flow in {0,200,600}, dt_cont in {0,10}, htc in {0.5,2}, set_heat_flow(300))",
-    "StreamCollection: pool of three streams with clashing names; 17-event menu (add, add with key, add_many, remove, replace, set_sort_key, +, member attribute assignment); "
-    "depth 4 (quick) / 5 (thorough); states rebuilt by replaying the history on fresh objects; lock-step list reference",
+    "StreamCollection: pool of three streams with clashing names; 18-event menu (add, add with key, add_many, remove, replace, set_sort_key, +, member attribute assignment); "
+    "depth 5 (quick) / 6 (thorough); states rebuilt by replaying the history on fresh objects; lock-step list reference",
     "film coefficient 0 is outside the alphabet (no reciprocal); supply == target together with a zero duty is inside it (the library makes it the zero-capacity limit of a latent cold stream)",
 ]
 
@@ -21,7 +21,7 @@ S_INIT = [("hot", dict(t_supply=150.0, t_target=50.0, heat_flow=200.0, dt_cont=1
           ("unloaded-utility", dict(t_supply=150.0, t_target=149.9, heat_flow=0.0, dt_cont=0.0, htc=1.0))]
 S_EVENTS = ([("t_supply", v) for v in (50.0, 100.0, 150.0)] + [("t_target", v) for v in (50.0, 100.0, 150.0)]
             + [("heat_flow", v) for v in (200.0, 600.0, 0.0)] + [("dt_cont", v) for v in (0.0, 10.0)] + [("htc", v) for v in (0.5, 2.0)]
-            + [("set_heat_flow", 300.0)])
+            + [("set_heat_flow", 300.0), ("t_target", 100.0000005)])       # the last one: a span of 5e-7 K next to t_supply = 100
 
 
 def stream_build(init_i, hist):
@@ -72,7 +72,7 @@ def stream_explore(tier, inst, shard, nshards):
     res = Result()
     res.state_keys = set()
     res.nt_keys = set()
-    depth = 3 if tier == "quick" else 4
+    depth = 4 if tier == "quick" else 12     # thorough: the frontier empties at depth 7-8, i.e. EVERY state reachable through the menu is visited
     work = 0
     for init_i in range(len(S_INIT)):
         s0 = stream_build(init_i, [])
@@ -109,6 +109,12 @@ def stream_explore(tier, inst, shard, nshards):
                         res.samples.append({"initial": S_INIT[init_i][0], "events": [S_EVENTS[i] for i in h2]})
                     nxt.append((h2, k))
             frontier = nxt
+            if not frontier:
+                res.stats[f"closed_at_depth_{level + 1}"] += 1
+                break
+        else:
+            if tier == "thorough":
+                res.capped = True
     return res
 
 
@@ -123,13 +129,15 @@ C_EVENTS = (
     [("add", 0), ("add", 1), ("add", 2), ("add_key", 1), ("add_many", None), ("add_many_keys", None),
      ("remove", "A"), ("remove", "A_1"), ("remove", "B"), ("remove", "zzz"),
      ("replace", None), ("sort", ("t_supply", False)), ("sort", ("name", True)), ("sort", (["t_target", "t_supply"], False)),
-     ("concat", None), ("mutate", (0, 200.0)), ("mutate", (2, 10.0))]
+     ("concat", None), ("mutate", (0, -2.0)), ("mutate", (0, -1.0)), ("mutate", (2, -10.0))]
 )
 
 
 def pool():
     from OpenPinch.classes.stream import Stream
-    return [Stream(name="A", t_supply=100.0, t_target=40.0, heat_flow=100.0), Stream(name="A", t_supply=50.0, t_target=120.0, heat_flow=100.0),
+    # sort-attribute values -1.0 / -1.5 / -2.0: negative keys, and -1.0 and -2.0 have the same hash in CPython (anything that
+    # remembers "the keys as they were" through a hash instead of the values shows here)
+    return [Stream(name="A", t_supply=-1.0, t_target=-40.0, heat_flow=100.0), Stream(name="A", t_supply=-1.5, t_target=20.0, heat_flow=100.0),
             Stream(name="B", t_supply=150.0, t_target=60.0, heat_flow=100.0)]
 
 
@@ -265,7 +273,7 @@ def coll_explore(tier, inst, shard, nshards):
     res = Result()
     res.state_keys = set()
     res.nt_keys = set()
-    depth = 4 if tier == "quick" else 5
+    depth = 5 if tier == "quick" else 6
     frontier = [[]]
     seen = set()
     work = 0
@@ -310,13 +318,13 @@ SUBCHECKS = {
         describe="BFS over sequences of Stream attribute assignments; invariants (CP.span = duty, bounds order, shift direction = kind, resistance) in every state",
         rule="state = all public derived attributes; non-trivial = state differs from its predecessor",
         explore=stream_explore, replay=stream_replay,
-        bound=lambda t: "4 initial streams x all sequences of <=3 of 15 events" if t == "quick" else "4 initial x <=4 of 15 events",
+        bound=lambda t: "4 initial streams x all sequences of <=4 of 16 events" if t == "quick" else "4 initial x 16 events to the fixpoint (every reachable state; expansion of distinct states only)",
     ),
     "collection": SubCheck(
         name="collection",
         describe="BFS over sequences of StreamCollection operations in lock step with a list reference; len/iter/index/contains observed after every step",
         rule="state = keys->members, sort key, dirty flag, cached order, member sort attributes; non-trivial = state holding >=2 members",
         explore=coll_explore, replay=coll_replay,
-        bound=lambda t: "all sequences of <=4 of 17 events" if t == "quick" else "all sequences of <=5 of 17 events",
+        bound=lambda t: "all sequences of <=5 of 18 events" if t == "quick" else "all sequences of <=6 of 18 events (expansion of distinct states only)",
     ),
 }
